@@ -285,6 +285,7 @@ def _episode(g, gs0, sup, ep, eo: EpisodeOut, clock, const, plan):
             pass
         ending = ep.get("ending", "stop")
         if ending in ("stop", "stop2"):
+            _probe_stop(g, sup)
             _call(eo, "stop", g.stop, budget=budget, slow=sl(ep["nsteps"] + 1))
             eo.stopped = True
             if ending == "stop2":
@@ -327,3 +328,22 @@ def _all_active(gs) -> bool:
     except Exception:
         return True
     return True
+
+
+def _probe_stop(g, sup):
+    """Coverage probes only (read-only peek at private state): in which state of the user/supervisor handshake does stop() arrive?"""
+    try:
+        syn = g._synchronizer
+        q = getattr(syn, "_q_act", None)
+        t = g._async_nodes[sup.name]._executor.t
+        waiting = t.state == km.BLOCKED and isinstance(t.waiting_on, km.SimFuture)
+        if q is not None and len(q) == 0:
+            K.count("stop_while_action_queue_empty")
+        if waiting:
+            K.count("stop_while_supervisor_waiting")
+        elif t.state == km.RUNNABLE:
+            K.count("stop_while_supervisor_runnable")
+        else:
+            K.count("stop_while_supervisor_idle")
+    except Exception:
+        pass
